@@ -149,7 +149,8 @@ def to_node(n):
     if isinstance(n, ast.UnaryOp):
         return "(NUnary %s %s)" % (cbool(type(n.op) in KNOWN_UNARY), to_node(n.operand))
     if isinstance(n, ast.Compare):
-        return "(NCompare %s %s)" % (to_node(n.left), clist([to_node(c) for c in n.comparators]))
+        return "(NCompare %s %s)" % (to_node(n.left), clist([
+            "(%s, %s)" % (cbool(isinstance(op, (ast.In, ast.NotIn))), to_node(c)) for op, c in zip(n.ops, n.comparators)]))
     if isinstance(n, ast.Call):
         if any(kw.arg is None for kw in n.keywords):
             return "NOther"
@@ -210,6 +211,10 @@ EXTRA = [
     "any(f() for f in [r.a.upper])", "any(f() for f in [lower])", "any(string('A') for string in [r.a.startswith])",
     "any(lower(v) for v in r.a)", "any(v.m() for v in r.a)", "any(x == 1 for x in r.a) and any(x == 2 for x in r.b)",
     "any(r for r in [1])", "any(v for lower in [r.a.m] for v in [lower(1)])",
+    # a generator consumed by a membership operator leaks its variable; the leaked callable is then called
+    "1 in (f for f in [r.a.upper]) or f()", "r.b in (f for f in [r.a.m]) and f(1)", "(r.z in (g for g in r.a)) == g.m()",
+    "1 not in (f() for f in [r.a.m])", "r.a in (v.m for v in r.b if v.n) or v()", "1 in (f for f in [lower]) or f(r.a) == 1",
+    "(f for f in [r.a.m]) in [1] or f()", "str((f() for f in [r.a.m])) == ''", "1 == (f() for f in [r.a.m])",
     # dunder access spelled in every position
     "r.__dict__", "r.a.__class__", "lower(r.a).__class__", "'a'.__class__", "(r.a, 1).__len__", "r.a.__call__()",
     "Type.__class__", "net.__class__", "lower.__globals__", "str.__subclasses__()",
